@@ -129,6 +129,18 @@ def f32_exact(l):
     return float(np.float32(v)) == v
 
 
+def midshuffle_pairs():
+    """pairs of arrays over one dimension whose label sets are equal or nested, stored with the same first and last
+    label but a different order in between (int / float / str labels; either array first)"""
+    sets = {"i": ([0, 1, 2, 3], [0, 2, 1, 3], [0, 1, 2, 5, 3], [0, 3]), "f": ([0.5, 1.5, 2.5, 3.5], [0.5, 2.5, 1.5, 3.5], [0.5, 3.0, 1.5, 2.5, 3.5], [0.5, 3.5]),
+            "O": (["a", "b", "c", "d"], ["a", "c", "b", "d"], ["a", "c", "e", "b", "d"], ["a", "d"])}
+    for kind, (inc, mid, mid5, ends) in sets.items():
+        def ax(vals):
+            return {"name": "x", "kind": kind, "labels": [gen.enc(Fraction(v) if kind != "O" else v) for v in vals], "_order": "mid", "_how": "equal"}
+        for la, lb in ((inc, mid), (mid, inc), (mid5, ends), (ends, mid5), (mid, mid5)):
+            yield [{"axes": [ax(la)], "vkind": "f"}, {"axes": [ax(lb)], "vkind": "f"}]
+
+
 def gen_entries(rng, tier="quick"):
     """an align case: the plain stream of gen_arrays, and on modest shares of it the other argument forms the
     statement quantifies over (Datasets, scalars, a tuple, strict=, narrow / unsigned label dtypes, float32 / int32 /
@@ -342,6 +354,9 @@ class C06(Prop):
 
     def gen(self, rng, tier):
         n = 700 if tier == "quick" else 20000
+        for arrays in midshuffle_pairs():
+            for join in ("outer", "inner"):
+                yield {"op": "align", "arrays": arrays, "join": join, "sort": False, "axis": None}
         for _ in range(n):
             yield gen_entries(rng, tier)
         for _ in range(n // 2):
